@@ -1,27 +1,12 @@
 INIT Init
 NEXT Next
 CONSTANTS
-  Keys <- K2b
-  AllowedKeys <- A_AB
-  AllowedModes <- Yes
-  Forms = {"bare"}
-  IntCoefs <- I_2
-  DecCoefs <- None
-  InactCoefs <- I_2
-  MaxReac = 1
-  MaxProd = 1
-  MaxInact = 1
-  Arrows = {"->"}
-  Params <- P_one
-  Kws <- W_ref
-  MaxLines = 2
-  Comments <- C_q
-  MaxComments = 1
-  PrintOpts <- O_all
-  FaultKinds <- F_all
+  SliceTable <- AllSlices
+  SliceNames = {"cover"}
 INVARIANT TypeOK
 INVARIANT RepeatedSpeciesSummed
 INVARIANT InactiveNeverActive
 INVARIANT ParsePrintIdentity
+INVARIANT TextWins
 INVARIANT Emit
 CHECK_DEADLOCK FALSE
